@@ -1668,6 +1668,12 @@ class Parameter(_ParameterBase):
                     # a plain value ends the link: also stop watching its sources
                     obj.param._update_ref(name, None)
             if is_async or val is Undefined:
+                # a reference without a value yet is no way round the
+                # constant / read-only protection either
+                if self.readonly:
+                    raise TypeError("Read-only parameter '%s' cannot be modified" % name)
+                elif self.constant:
+                    raise TypeError("Constant parameter '%s' cannot be modified" % name)
                 update_ref()
                 return
 
